@@ -302,8 +302,8 @@ list — `ReachHttp`). -/
 theorem convert_inst (isReq : Bool) (hs : List (String × Option String)) (ss : List Header)
     (hc : HdrConf hs ss)
     (hkeep : ∀ h ∈ ss, h.value.isSome →
-      h.name ∉ (if isReq then Gen.BundledSig.requestOptionalHeaders else Gen.BundledSig.responseOptionalHeaders) ∧
-      h.name ∉ (if isReq then Gen.BundledSig.requestSkipValueHeaders else Gen.BundledSig.responseSkipValueHeaders)) :
+      inListCI (if isReq then Gen.BundledSig.requestOptionalHeaders else Gen.BundledSig.responseOptionalHeaders) h.name = false ∧
+      inListCI (if isReq then Gen.BundledSig.requestSkipValueHeaders else Gen.BundledSig.responseSkipValueHeaders) h.name = false) :
     HdrInst (convertHeaders isReq hs) ss := by
   induction hc with
   | nil => exact .nil
@@ -322,12 +322,8 @@ theorem convert_inst (isReq : Bool) (hs : List (String × Option String)) (ss : 
       right
       obtain ⟨h1, h2⟩ := hkeep s (by simp) (by simp [hsv])
       rw [← hn] at h1 h2
-      have c1 : (if isReq then Gen.BundledSig.requestOptionalHeaders else Gen.BundledSig.responseOptionalHeaders).contains h.1 = false := by
-        simpa using h1
-      have c2 : (if isReq then Gen.BundledSig.requestSkipValueHeaders else Gen.BundledSig.responseSkipValueHeaders).contains h.1 = false := by
-        simpa using h2
       unfold convertHeader
-      simp only [c1, c2, Bool.false_eq_true, if_false]
+      simp only [h1, h2, Bool.false_eq_true, if_false]
       exact hv v hsv
   | @skip s hs ss ho _ ih =>
     exact .skip ho (ih (fun x hx => hkeep x (by simp [hx])))
